@@ -146,7 +146,7 @@ $(BUILD)/wsim/wsimlib.o: $(addprefix $(BUILD)/wsim/,$(addsuffix .o,$(WSIM_LIB)))
 	ld -r -o $@.raw $@.lib $(BUILD)/wsim/winsim.o
 	objcopy --redefine-syms=$(SRC)/winsim/sock.map $@.raw $@
 -include $(wildcard $(BUILD)/wsim/*.d)
-WSIM_PROPS := C01win C02win C04w2 C05win C06win C10win C11win
+WSIM_PROPS := C01win C02win C03win C04w2 C05win C06win C09win C10win C11win C17win
 define WSIM_RULES
 $(BUILD)/props/$(1).o: $(SRC)/props/Wsim.cpp $(wildcard $(SRC)/common/*.hpp) $(wildcard $(SRC)/winsim/*.h) $(wildcard $(SRC)/props/*.hpp)
 	@mkdir -p $$(dir $$@)
